@@ -94,6 +94,10 @@ def specialise(stmts: list, var: str, key_text: str, scopes: list, same_key: Opt
                 v = lookup(n.value.id)
                 if v is not None:
                     return copy.deepcopy(v)
+            if isinstance(n.value, ast.Dict) and isinstance(n.slice, ast.Name) and n.slice.id == var and isinstance(n.ctx, ast.Load):
+                for k, v in zip(n.value.keys, n.value.values):
+                    if k is not None and is_key(k):
+                        return copy.deepcopy(v)
             if isinstance(n.value, (ast.Tuple, ast.List)) and isinstance(n.slice, ast.Constant) and isinstance(n.slice.value, int) \
                     and -len(n.value.elts) <= n.slice.value < len(n.value.elts):
                 return n.value.elts[n.slice.value]
